@@ -305,7 +305,9 @@ def rest2(ctx, rep, ev):
     for p in (SCAN + "load_rdh_cru", SCAN + "load_next_rdh_to_filter"):
         if p not in f.fns:
             continue
-        b = cg.body(p)
+        # helper methods of the scanner are inlined: the rule is about events, not about how the code is split
+        from ..mir import inline_fn
+        b = Body(inline_fn(f, p, lambda c: c.startswith(AP + "input_scanner::InputScanner::<R>::")))
         sites = [(bb, t) for bb, t, cal, c in b.calls() if cal == fp]
         rep.check(len(sites) == 1, "R3.5", "R3.5|use|%s" % p.split("::")[-1], "filter predicate evaluated once per RDH", p)
         for bb, t in sites:
